@@ -692,9 +692,10 @@ pub fn close(seed: u64, out: &mut Outcome) {
             if removed {
                 continue;
             }
+            // (the recorded findings that involve `Reset` are tied to a stateless reset really handled: lostkeys.rs)
+            let resets = sim.ledger.stateless_resets_handled(node, ch);
             if lost.len() > 1 {
-                let kinds: Vec<&str> = lost.iter().map(|l| l.trim_start_matches("ConnectionLost(").split(|c| c == '(' || c == ')' || c == ' ').next().unwrap_or("")).collect();
-                sim.fail(&format!("lost-reported-twice:{}", kinds.join("+")), format!("node {node}: {lost:?}"));
+                sim.fail(&crate::lostkeys::twice_key(&lost, resets), format!("node {node}: {lost:?} (stateless resets of the peer endpoint handled: {resets})"));
             }
             if drained_events > 1 {
                 sim.fail("drain-notified-twice", format!("node {node} conn {ch}"));
@@ -703,7 +704,7 @@ pub fn close(seed: u64, out: &mut Outcome) {
             if closed_local.is_some() && !lost.is_empty() {
                 // a local close reports nothing at the protocol layer
                 let peer_closed_too = action == 2;
-                let k = if lost[0].contains("Reset") { "lost-after-local-close:reset" } else if peer_closed_too { "" } else { "lost-after-local-close:other" };
+                let k = crate::lostkeys::after_local_close_key(&lost[0], resets, if peer_closed_too { "" } else { "lost-after-local-close:other" });
                 if !k.is_empty() {
                     sim.fail(k, format!("node {node} closed locally yet polled {lost:?}"));
                 }
